@@ -352,7 +352,7 @@ def run(ck: Check):
                       "produce v0..v7 brokers, CreateTime/LogAppendTime topics, explicit/default timestamps, faults "
                       "as in C01, flush() at a random accept; one evaluation = one done() case or one send future; "
                       "non-trivial = batch of >1 record or a run with at least one fault")
-    ck.regenerate(["IncrSeq", "ProduceDispatch"])
+    ck.regenerate(["IncrSeq", "ProduceDispatch", "DoneGen"])
     ok_p, _ = ck.coq_props("C02")
     check_done(ck)
     check_produce_dispatch(ck)
